@@ -92,7 +92,7 @@ func (vm *varyMatcher) varyHeadersMatchOne(entry *ResponseRef, reqHeader http.He
 // (RFC 9110 §12.5.5: a list containing "*" signals that anything might have
 // played a role in selecting the response).
 func varyHasWildcard(vary string) bool {
-	for field := range TrimmedCSVSeq(vary) {
+	for field := range fieldNameSeq(vary) {
 		if field == "*" {
 			return true
 		}
